@@ -52,7 +52,10 @@ Tokens == {
   Tok("data", TRUE, V("seq", <<>>)), Tok("data", TRUE, V("seq", <<1, 2>>)),
   Tok("data", TRUE, V("seq", <<128>>)), Tok("data", TRUE, V("badseq", <<>>)),
   Tok("data", TRUE, V("lparen", <<1, 2>>)), Tok("data", TRUE, V("rparen", <<1, 2>>)),
-  Tok("data", TRUE, I(123)) }
+  Tok("data", TRUE, I(123)),
+  \* nothing after the '=' sign
+  Tok("data", TRUE, V("empty", <<>>)), Tok("note", TRUE, V("empty", <<>>)),
+  Tok("time", TRUE, V("empty", <<>>)) }
 
 \* lines used in streams: <<type word, args, decoration>>
 LineTable == <<
